@@ -540,34 +540,11 @@ PROPS["C19"] = {'coq': 'Properties/C19.v',
                   'shape predicate (GsdShape.child_rx) is PROVED to hold for every tree Peg.v returns and is additionally checked on every real pair '
                   'tree',
                   "the harness's GSD pretty-printer and description generator (fidelity oracle: parse(render(d, style)) = d)"],
- 'technique': 'Coq proof (totality of the interpretation step over all grammar-shaped pair trees; settings-fragment round trip) + differential '
-              'correspondence model vs crate on real pest pair trees + differential round trip on the implementation',
- 'level_text': "No-panic half: machine-checked (Coq 8.16.1, closed under the global context) that the Gallina model of parser.rs's interpretation "
-               "step - with every unwrap/expect/assert!/unreachable!/panic! as an explicit panic outcome - returns a description or the parser's "
-               'error for EVERY pair tree of the shape the grammar prescribes (Shape, computed from the grammar value translated from gsd.pest; '
-               'structural induction, no fuel). On the unchanged tree this is false at 14 sites (F8: five defect classes, repaired by five minimal '
-               'fix: commits; the model is of the repaired code, the witnesses are in the corpus). The model is tied to the crate on every run by '
-               'feeding the REAL pest pair tree of each case to the model and comparing OK-dump/ERR/PANIC with the real parser, and the shape '
-               'predicate is checked on every real tree. Fidelity half (partial): proved at tree level for the key = number|string settings fragment '
-               'under all spellings; every other statement kind and the lexical layer are validated by parse(render(d, style)) = d on the '
-               'implementation (oracle failures are violations).',
+ 'technique': 'Coq proof (totality of the interpretation step over all grammar-shaped pair trees; whole-file round trip at tree level with closed forms per fragment) + differential correspondence model vs crate on real pest pair trees (incl. decode / re-render of every rendered file) + differential round trip on the implementation',
+ 'level_text': "No-panic half: machine-checked (Coq 8.16.1, closed under the global context) that the Gallina model of parser.rs's interpretation step - with every unwrap/expect/assert!/unreachable!/panic! as an explicit panic outcome - returns a description or the parser's error for EVERY pair tree of the shape the grammar prescribes (Shape, computed from the grammar value translated from gsd.pest; structural induction, no fuel), and for every tree the PEG model of pest returns for any text. On the unchanged tree this is false at 14 sites (F8: five defect classes, repaired by five minimal fix: commits; the model is of the repaired code, the witnesses are in the corpus). The model is tied to the crate on every run by feeding the REAL pest pair tree of each case to the model and comparing OK-dump/ERR/PANIC with the real parser. Fidelity half: proved AT TREE LEVEL for whole files of every statement kind in any order (C19_roundtrip_file: the interpretation of file_tree stmts is what the written statements say), with closed forms for the scalar settings incl. speeds, response times, Modular_Station, Max_Module (C19_roundtrip_scalars), PrmText / ExtUserPrmData definitions, station-level Ext_/legacy user parameter data and modules (C19_roundtrip_prm_modules) and slots (C19_roundtrip_slots_partial: Module blocks before SlotDefinition blocks), under all spellings of keys, numbers and strings; the step text -> pair tree (white space, comments, line ends, preamble) is validated, not proved: Peg.v = pest at tree level on every case, the real tree of every rendered file = file_tree of its decoded statements, and parse(render(d, style)) = d on the implementation (oracle failures are violations).",
  'level_note': 'Trusted: Coq kernel, gen/tr_gsd.py, extraction + OCaml driver, Rust harness incl. its pretty-printer; the pest library (text -> pair '
                'tree) is trusted and only tested; the hand model of the interpretation step is validated differentially, not verified against Rust.',
- 'partial_gap': 'PROVED: (1) C19_interp_total / C19_interp_never_panics - for all pair trees t with Shape t (the grammar-derived shape), interp t is '
-                'Ok or Err, never a panic (all statement kinds, all helpers, post-processing); C19_tree_shape - the run-time checker shapeb decides '
-                'Shape; C19_peg_tree_shape / C19_text_level_no_panic - every pair tree that the PEG model of pest (Model/Peg.v) returns for ANY text '
-                'has that shape, hence no accepted text can make the interpretation panic; C19_model_never_panics - the text-level model gsd_model '
-                '(Peg.v then interp) has no panic outcome for any text. (2) C19_roundtrip_settings_partial - for files consisting of key = '
-                'number|string settings (known non-special keys in any letter case, or unknown keys; numbers as any decimal/0x-hex digit string '
-                "within the field's type; strings without back slash, cut by any line continuation markers; any preamble; no field written twice) "
-                'the interpretation of the pair tree yields exactly the written values, or-ed speed flags and defaults elsewhere; '
-                "C19_settings_tree_shape. ONLY VALIDATED (differential, this run's cases): that the real pest library behaves like Peg.v (same "
-                'accept/reject verdict and identical pair tree incl. leaf texts on every valid-UTF-8 case) and never panics itself; that pest maps '
-                "the rendered text to the tree of the theorem (white space, comments, line ends, CR/LF, preamble: every settings-only file's real "
-                'tree equals settings_tree of its decoded items); fidelity for Modular_Station/Max_Module, PrmText, ExtUserPrmData, modules, slots, '
-                'Ext_/User_Prm_Data, unit diagnostics (oracle parse(render(d, style)) = d on the implementation). NOT DONE: C19_parse_total '
-                '(termination of the PEG model within a linear fuel bound for all texts; peg_parse may in principle return OutOfFuel - it never did '
-                "on this run's cases), a text-level round trip theorem through Peg.v.",
+ 'partial_gap': "PROVED, no-panic half: C19_interp_total / C19_interp_never_panics (all Shape trees), C19_tree_shape, C19_peg_tree_shape / C19_text_level_no_panic / C19_model_never_panics (every tree of the PEG model, every text). PROVED, fidelity half, at tree level (trees as pest delivers them; any spelling of keys / type names, any decimal or 0x-hex digit string incl. leading zeros and minus signs, any placement of line continuation markers in strings whose content has no back slash directly before CR/LF, any preamble): C19_roundtrip_file - for every well-formed file (file_okb: values within their types, references defined before use, legacy data within its declared length, known data type names, no index on plain keys) made of ANY statements in ANY order (settings, PrmText, ExtUserPrmData, Unit_Diag_Area, Module, SlotDefinition, ignored blocks) the interpretation of its pair tree equals file_says, the reading of the written values (no tree, no parsing); closed forms: C19_roundtrip_scalars - identification data, speeds (*_supp), response times (MaxTsdr_*), sizes, flags, Modular_Station and Max_Module arrive exactly as written, speeds are the or of the non-zero *_supp, defaults elsewhere (no scalar field written twice); C19_roundtrip_prm_modules - with unique PrmText / ExtUserPrmData ids: every reference means the definition block with that id (name, data type incl. Bit / BitArea, default, range or set, Changeable / Visible, text table of the referenced PrmText), the station's user parameter data is exactly the Ext_ constants and resolved references in file order, else the legacy User_Prm_Data_Len / User_Prm_Data lines, the modules are exactly the Module blocks in order (name, config bytes, reference, Info_Text, prm length, constants, resolved references); C19_roundtrip_slots_partial - slots (name, number, default module, allowed modules for a set or range) when no Module block follows a SlotDefinition block (other layouts: C19_roundtrip_file only); C19_number_as_written, C19_string_as_written, C19_roundtrip_settings_partial, C19_settings_tree_shape as before. Unit_Diag_Bit / _Not_Bit / _Help and Unit_Diag_Area are covered by C19_roundtrip_file without a separate closed form. The number of warnings is part of file_says (= interp) but has no closed form. ONLY VALIDATED (differential, this run's cases): text -> pair tree, i.e. that the real pest library behaves like Peg.v (same verdict and identical pair tree incl. leaf texts on every valid-UTF-8 case) and never panics itself; that pest maps a rendered text to the tree of the theorems (white space, comments, line ends, CR/LF, preamble): the real pair tree of every rendered file (1500 per quick run) equals file_tree of its decoded statements, all hypotheses of the theorems hold for it, and file_says equals the implementation's result; the implementation-level oracle parse(render(d, style)) = d. Files that write an index on a plain key (GSD_Revision(3) = ..: the parser takes the index for the value) are outside the proved fragment. NOT DONE: C19_parse_total (termination of the PEG model within a linear fuel bound; peg_parse may in principle return OutOfFuel - it never did), a text-level round trip theorem through Peg.v.",
  'design_ref': 'DESIGN.md section 4, C19 (pest itself remains a named, differentially validated oracle: section 10)',
  'assumptions': ['input is what gsd_parser::parse_from_file passes on: String::from_utf8_lossy of the file bytes',
                  'entry points gsd_parser::parser::parse / parse_with_warnings (parse_from_file itself panics on Err by design)',
